@@ -67,7 +67,7 @@ func (e *Engine) verifIntrinsic(name string) Intrinsic {
 			var out []*State
 			for i := 0; i < k; i++ {
 				ch := e.Clone(st)
-				ch.addPC(e.TT.Eq(v, e.TT.Int(int64(i))))
+				e.addHardPC(ch, e.TT.Eq(v, e.TT.Int(int64(i))))
 				e.setResult(ch, c, e.TT.Int(int64(i)))
 				out = append(out, ch)
 			}
